@@ -574,6 +574,15 @@ def install_oracle(rec, house, store=None, nvars=0):
             return r
         return exitAll
 
+    def mk_segue(orig):
+        def segue(self):
+            rec.oracle.append(["segue", rec.tick, self.name, "begin"])
+            try:
+                return orig(self)
+            finally:
+                rec.oracle.append(["segue", rec.tick, self.name, "end"])
+        return segue
+
     def mk_frame_enter(orig):
         def enter(self):
             depth[0] += 1
@@ -613,6 +622,7 @@ def install_oracle(rec, house, store=None, nvars=0):
     patch(framing.Framer, "enterAll", mk_enterAll)
     patch(framing.Framer, "exitAll", mk_exitAll)
     patch(framing.Frame, "enter", mk_frame_enter)
+    patch(framing.Framer, "segue", mk_segue)
     patch(completing.CompleteDone, "action", mk_done)
     patch(needing.NeedDone, "action", mk_needdone)
     patch(needing.NeedDoneAux, "action", mk_needdoneaux)
